@@ -1,14 +1,14 @@
 #!/usr/bin/env python3
 """Confirm a sub-agent's faulty change in a scratch worktree of /repo and keep it under seeded/<ID>-mutN/.
 
-  tools/import_mutation.py <ID> <N>      reads /tmp/mut-<ID>/out/{mutN.diff,demo_mutN.rs,README.md}
+  tools/import_mutation.py <ID> <N>      reads /tmp/mut-out/<ID>/{mutN.diff,demo_mutN.rs,README.md} (or /tmp/mut-<ID>/out/)
 Confirms: (1) the demonstration passes on the unchanged tree, (2) with the change the existing suite still
 passes (229 tests), (3) with the change the demonstration fails.
 """
 import json, os, re, shutil, subprocess, sys
 pid, n = sys.argv[1], sys.argv[2]
 root = os.path.dirname(os.path.dirname(os.path.abspath(__file__)))
-src = f"/tmp/mut-{pid}/out"
+src = f"/tmp/mut-out/{pid}" if os.path.exists(f"/tmp/mut-out/{pid}") else f"/tmp/mut-{pid}/out"
 wt = "/tmp/mutverify"
 env = dict(os.environ, CARGO_TARGET_DIR="/tmp/mutverify-target", CARGO_NET_OFFLINE="true", TZ="UTC")
 def sh(cmd, cwd=wt):
